@@ -31,4 +31,18 @@ theorem methods_known :
     (∀ e ∈ methodTagMap, e.1 ∈ RouteList.knownMethods) ∧
     (∀ m ∈ RouteList.knownMethods, m ∈ methodTagMap.map (·.1)) := by decide
 
+/-! ### the request counter behind the Store ids (C05)
+
+`Props/C05` counts requests in `Nat` and writes the number with `render36`.  The code counts in a
+fixed-width unsigned field; the two agree as long as the counter has not wrapped, which for the
+extracted width is `2^64` requests of one Mux (an explicit assumption of C05, not checkable by running).
+A narrower field, another step or another base breaks this file. -/
+
+theorem id_counter_shape :
+    storeIDBits = 64 ∧ storeIDAddBits = storeIDBits ∧ storeIDStep = 1 ∧ storeIDBase = 36 := by decide
+
+/-- below the width of the field the machine counter IS the natural number the model counts with -/
+theorem id_counter_exact (n : Nat) (h : n < 2 ^ storeIDBits) : n % 2 ^ storeIDBits = n :=
+  Nat.mod_eq_of_lt h
+
 end Glb.Tie.Httpd
